@@ -135,8 +135,9 @@ def _run_property(pid, tier='quick', seed=0, only=None, jobs=None):
 
     # An obligation and its reachability twin are one task (the twin - at most 30 s - runs right after a CONFIRMED main, even
     # when the wall budget has just run out: a verdict is never left half-decided).  Short obligations first, and no single
-    # obligation may use more than a third of the property's wall budget (VERIF_TIMEOUT_CAP, honoured by the workers).
-    cap = budget / 3.0
+    # obligation may use more than budget / min(3, obligations per worker) (VERIF_TIMEOUT_CAP, honoured by the workers).
+    rounds = max(1, min(3, -(-len(obs) // max(1, jobs))))        # how many obligations each worker has to take, at most 3 counted
+    cap = 0.9 * budget / rounds
     os.environ['VERIF_TIMEOUT_CAP'] = str(cap)
 
     def run_pair(o):
